@@ -730,6 +730,7 @@ type FCtx struct {
 	PhiChoice map[*ssa.Phi]ssa.Value
 	// snap: per defining instruction, the (frozen value, live read) pairs of its snapshot term
 	snap map[ssa.Instruction][][2]*Term
+	noCalleeSplits bool // (walker) do not look for case splits in callees of this context
 }
 
 func (a *Analyzer) NewFCtx(fn *ssa.Function, env map[ssa.Value]*Term, depth int) *FCtx {
@@ -1112,6 +1113,11 @@ func (c *FCtx) load(addr ssa.Value, at *ssa.UnOp) *Term {
 	case *ssa.Global:
 		return c.Term(a)
 	case *ssa.Alloc:
+		if at != nil {
+			if t := c.structFilledAt(a, at); t != nil {
+				return t
+			}
+		}
 		if isComplit(a) {
 			return c.Term(a)
 		}
@@ -1839,4 +1845,90 @@ func (c *FCtx) intrinsic(name string, args []*Term) *Term {
 		}
 	}
 	return nil
+}
+
+// structFilledAt: the value of a struct-typed local (typically a named result) that starts as the zero value and is
+// filled field by field, as read by instruction `at`: every field whose single store dominates the read has that value,
+// a field with no store at all is zero; nil when the variable is not of that shape or a field is written more than once
+// or on some paths only.
+func (c *FCtx) structFilledAt(a *ssa.Alloc, at ssa.Instruction) *Term {
+	elem := a.Type().(*types.Pointer).Elem()
+	st, ok := elem.Underlying().(*types.Struct)
+	if !ok {
+		return nil
+	}
+	nWhole, zeroInit := 0, false
+	for _, r := range *a.Referrers() {
+		if s, ok := r.(*ssa.Store); ok && s.Addr == ssa.Value(a) {
+			// `return namedResult, x` compiles to a self-assignment  *a = *a : not a write
+			if u, isU := s.Val.(*ssa.UnOp); isU && u.Op == token.MUL && u.X == ssa.Value(a) {
+				zeroInit = true // (marks the named-result shape)
+				continue
+			}
+			nWhole++
+			if k, isC := s.Val.(*ssa.Const); isC && k.Value == nil && s.Block() == a.Parent().Blocks[0] {
+				zeroInit = true
+				nWhole--
+			}
+		}
+	}
+	if nWhole > 0 {
+		return nil
+	}
+	stores := map[int][]*ssa.Store{}
+	nField := 0
+	for _, r := range *a.Referrers() {
+		fa, isFA := r.(*ssa.FieldAddr)
+		if !isFA {
+			continue
+		}
+		for _, r2 := range *fa.Referrers() {
+			switch x := r2.(type) {
+			case *ssa.Store:
+				if x.Addr == ssa.Value(fa) {
+					stores[fa.Field] = append(stores[fa.Field], x)
+					nField++
+				}
+			case *ssa.UnOp:
+			default:
+				return nil // the field's address escapes
+			}
+		}
+	}
+	if nField == 0 || !zeroInit {
+		return nil // plain literals / untouched variables are handled by allocTerm
+	}
+	dominates := func(s *ssa.Store) bool {
+		if s.Block() == at.Block() {
+			for _, in := range s.Block().Instrs {
+				if in == ssa.Instruction(s) {
+					return true
+				}
+				if in == at {
+					return false
+				}
+			}
+		}
+		return s.Block().Dominates(at.Block())
+	}
+	var names []string
+	var vals []*Term
+	for i := 0; i < st.NumFields(); i++ {
+		name := canonicalField(elem, st.Field(i).Name())
+		ss := stores[i]
+		switch {
+		case len(ss) == 0:
+			continue // zero: projections of a missing field give the zero constant
+		case len(ss) == 1 && dominates(ss[0]):
+			names = append(names, name)
+			vals = append(vals, c.Term(ss[0].Val))
+		case len(ss) == 1:
+			// not yet (or not always) written at this read
+			names = append(names, name)
+			vals = append(vals, c.unk(ss[0].Addr))
+		default:
+			return nil
+		}
+	}
+	return Struct(typeShort(elem), names, vals)
 }
